@@ -108,6 +108,51 @@ func main() {
 	}
 	wg.Wait()
 
+	// 1b. the distinct inputs are adjacent, non-overlapping sub-slices of one read buffer (documents split by
+	// offset), some of them holding NUL bytes: no Parse call may touch the bytes of another call's input.
+	{
+		nulDocs := [][]byte{[]byte("a\x00b\x00\n\n> \x00q\n"), []byte("# h\x00\n\n[l\x00]: /u\n\n[l\x00]\n"), []byte("\x00\x00\x00\x00")}
+		var all [][]byte
+		for i, d := range docs {
+			if i%8 == 0 {
+				all = append(all, nulDocs[(i/8)%len(nulDocs)])
+			}
+			all = append(all, d)
+		}
+		var buf []byte
+		bounds := []int{0}
+		for _, d := range all {
+			buf = append(buf, d...)
+			bounds = append(bounds, len(buf))
+		}
+		buf = append(buf, make([]byte, 64)...)
+		pristine := append([]byte(nil), buf...)
+		wantA := make([][]byte, len(all))
+		for i, d := range all {
+			roots, refs := cm.Parse(append([]byte(nil), d...))
+			wantA[i] = renderWith(cfg{}, roots, refs)
+		}
+		var wg sync.WaitGroup
+		for w := 0; w < *workers; w++ {
+			wg.Add(1)
+			go func(w int) {
+				defer wg.Done()
+				for i := w; i < len(all); i += *workers {
+					roots, refs := cm.Parse(buf[bounds[i]:bounds[i+1]])
+					if got := renderWith(cfg{}, roots, refs); !bytes.Equal(got, wantA[i]) {
+						mu.Lock()
+						fail("concurrent Parse of adjacent sub-slice %d differs from sequential", i)
+						mu.Unlock()
+					}
+				}
+			}(w)
+		}
+		wg.Wait()
+		if !bytes.Equal(buf, pristine) {
+			fail("Parse wrote outside its own input (shared read buffer changed)")
+		}
+	}
+
 	// 2. concurrent Render / Format / Walk / Extract on one shared tree
 	cfgs := []cfg{}
 	for _, s := range []cm.SoftBreakBehavior{cm.SoftBreakPreserve, cm.SoftBreakSpace, cm.SoftBreakHarden} {
